@@ -334,6 +334,17 @@ def oracle(case, ctx):
     r = sut(check_X, starts["Na"])
     if isinstance(r, Raised) or r is not starts["Na"]:
         discs.append(D("check_X_passthrough", repr(r)[:200]))
+    # a nested frame asked to stay (or become) pandas keeps its values, column names and
+    # instance labels, whatever its cells are made of
+    for kind in ("Ns", "Na"):
+        r = sut(check_X, starts[kind].copy(), coerce_to_pandas=True)
+        if isinstance(r, Raised) or not isinstance(r, pd.DataFrame):
+            discs.append(D("check_X_coerce_to_pandas:%s" % kind, repr(r)[:200]))
+            continue
+        got, gn, gi = dec_nested(r)
+        if not np.array_equal(got, A) or [str(x) for x in gn] != [str(x) for x in names] or [str(x) for x in gi] != [str(x) for x in inst]:
+            discs.append(D("check_X_coerce_to_pandas_changes_frame:%s" % kind, "columns %s instances %s; expected columns %s instances %s"
+                           % (gn, gi, names, inst)))
     r = sut(check_X, flat)
     if not (isinstance(r, Raised) and r.is_a(ValueError)):
         discs.append(D("check_X_accepts_flat_frame", repr(r)[:200]))
